@@ -25,7 +25,7 @@ def n_worlds(ctx):
     return 160 if ctx.tier == "quick" else 2000
 
 
-def corpus_worlds(pid_dirs=("C05", "C10")):
+def corpus_worlds(pid_dirs=("C05", "C07", "C10")):
     out = []
     for d in pid_dirs:
         p = os.path.join(core.ROOT, "corpus", d)
